@@ -20,6 +20,8 @@ pub enum LoadError {
     RootLoadingPath(PathBuf),
     #[error("invalid Unicode path is not supported: {0}")]
     InvalidUnicodePath(String),
+    #[error("file {0} is included recursively")]
+    RecursiveInclude(PathBuf),
     #[error("invalid glob pattern specified")]
     InvalidIncludeGlob(#[from] glob::PatternError),
     #[error("failed to match glob pattern")]
@@ -76,13 +78,14 @@ impl<F: FileSystem> Loader<F> {
         Deco: syntax::decoration::Decoration,
     {
         let popts = parse::ParseOptions::default().with_error_style(self.error_style.clone());
-        self.load_impl(&popts, &self.source, &mut callback)
+        self.load_impl(&popts, &self.source, &mut Vec::new(), &mut callback)
     }
 
     fn load_impl<T, E, Deco>(
         &self,
         parse_options: &parse::ParseOptions,
         path: &Path,
+        include_stack: &mut Vec<PathBuf>,
         callback: &mut T,
     ) -> Result<(), E>
     where
@@ -91,6 +94,11 @@ impl<F: FileSystem> Loader<F> {
         Deco: syntax::decoration::Decoration,
     {
         let path: Cow<'_, Path> = self.filesystem.canonicalize_path(path);
+        // a file including itself (directly or indirectly) would never terminate.
+        if include_stack.iter().any(|p| p == path.as_ref()) {
+            return Err(LoadError::RecursiveInclude(path.into_owned()).into());
+        }
+        include_stack.push(path.as_ref().to_owned());
         let content = self
             .filesystem
             .file_content_utf8(&path)
@@ -124,13 +132,14 @@ impl<F: FileSystem> Loader<F> {
                     }
                     paths.sort_unstable();
                     for path in &paths {
-                        self.load_impl(parse_options, path, callback)?;
+                        self.load_impl(parse_options, path, include_stack, callback)?;
                     }
                     Ok(())
                 }
                 _ => callback(&path, &ctx, &entry),
             }?;
         }
+        include_stack.pop();
         Ok(())
     }
 }
